@@ -66,7 +66,7 @@ func (c04) Thresholds(tier string) map[string]int64 {
 }
 
 func (c04) Rule() string {
-	return "case = one script of 25 lines and option groups built per character from unit classes {ASCII letters/digits/punctuation, colon, blanks, multi-byte letters, CJK, astral, combining marks, NBSP/ideographic space, bare < > } / and ->, and every escapable character \\\\ \\< \\> \\{ \\} \\# \\/ \\[ \\] escaped} with explicit position classes (first character of the line, second, after an expression, last, interior), 0-4 inline expressions of each type (numbers chosen for display-form coverage: integers up to 2^53-1, -0, 0.1+0.2, values within 1e-9 and within one ulp of an integer, 1e-7, 123456.5, 1234567.5, 1e15+0.5, 1e21), 0-3 tags, trailing comments, blanks at either edge; option groups of 1-5 options with every kind of condition subset (none / some / all; literal, variable-dependent). Ground truth by construction: text = concatenation of the units' outputs and the values' display forms, stripped of surrounding Unicode white space; tags in order; Disabled[i] iff option i carries a condition that is false. Numbers outside the zone in which all shortest-round-trip conventions agree are accepted in any notation that parses back to the value with the shortest digit string (integral values: digits only). Non-trivial: an escape or special character in a non-interior position, or a non-integer number, or a condition subset that is neither empty nor full. Distinct by hash of the source line. Lines whose text begins with \\[ or \\] are the known finding K1 and run in a sub-workload of their own."
+	return "case = one script of 25 lines and option groups built per character from unit classes {ASCII letters/digits/punctuation, colon, blanks, multi-byte letters, CJK, astral, combining marks, NBSP/ideographic space, bare < > } / and ->, and every escapable character \\\\ \\< \\> \\{ \\} \\# \\/ \\[ \\] escaped} with explicit position classes (first character of the line, second, after an expression, last, interior), 0-4 inline expressions of each type (numbers chosen for display-form coverage: integers up to 2^53-1, -0, 0.1+0.2, values within 1e-9 and within one ulp of an integer, 1e-7, 123456.5, 1234567.5, 1e15+0.5, 1e21), 0-3 tags, trailing comments, blanks at either edge; option groups of 1-5 options with every kind of condition subset (none / some / all; literal, variable-dependent). Ground truth by construction: text = concatenation of the units' outputs and the values' display forms, stripped of surrounding Unicode white space; tags in order; Disabled[i] iff option i carries a condition that is false. Numbers outside the zone in which all shortest-round-trip conventions agree are accepted in any notation that parses back to the value with the shortest digit string (integral values: digits only). Non-trivial: an escape or special character in a non-interior position, or a non-integer number, or a condition subset that is neither empty nor full. Distinct by hash of the source line. A further script per case makes a line (or option) fail half-way through its text and checks that every text returned afterwards is one of the script's literal texts, unchanged. Lines whose text begins with \\[ or \\] are the known finding K1 and run in a sub-workload of their own."
 }
 
 func (c04) Assumptions() []string {
@@ -263,6 +263,75 @@ func (p c04) Run(c *core.Ctx) {
 	}
 	if c.WantSample() {
 		c.Sample(map[string]any{"script": scripts[0], "choices": choices, "trace": pair.Trace[:min(len(pair.Trace), 8)]})
+	}
+
+	// ---- a line that fails half-way through its text, followed by literal lines and options: whatever
+	// the runner does after the error, a line or option it returns afterwards must be one of the
+	// script's literal texts, unchanged (nothing of the failed line may leak into it)
+	{
+		lits := []string{}
+		var eb []*hast.Stmt
+		mk := func(prefix string) string {
+			id++
+			t := fmt.Sprintf("%s%d %s", prefix, id, r.Pick("plain", "wörld", "日本", "x > y", "100%"))
+			lits = append(lits, t)
+			return t
+		}
+		eb = append(eb, &hast.Stmt{K: hast.SLine, Parts: []hast.Part{hast.Lit(mk("before"))}})
+		bad := []hast.Part{hast.Lit("Hello "), hast.Inl(hast.Var("s")), hast.Lit(", you own "), hast.Inl(hast.Var("nope")), hast.Lit(" coins")}
+		if r.Bool() {
+			eb = append(eb, &hast.Stmt{K: hast.SLine, Parts: bad})
+		} else {
+			eb = append(eb, &hast.Stmt{K: hast.SOptions, Options: []*hast.Option{{Parts: []hast.Part{hast.Lit("fine "), hast.Inl(hast.Var("int"))}}, {Parts: bad}}})
+			eb = append(eb, &hast.Stmt{K: hast.SLine, Parts: []hast.Part{hast.Lit(mk("sep"))}})
+		}
+		eb = append(eb, &hast.Stmt{K: hast.SLine, Parts: []hast.Part{hast.Lit(mk("after"))}})
+		eb = append(eb, &hast.Stmt{K: hast.SOptions, Options: []*hast.Option{{Parts: []hast.Part{hast.Lit(mk("opt"))}}, {Parts: []hast.Part{hast.Lit(mk("opt"))}}}})
+		eb = append(eb, &hast.Stmt{K: hast.SLine, Parts: []hast.Part{hast.Lit(mk("last"))}})
+		ep := &hast.Program{Readers: 1, Nodes: []*hast.Node{{Title: "Start", Body: eb}}}
+		es := hast.Render(ep, hast.L0())
+		er, err, pan := mon.Create(nil, "", es)
+		if err != nil || pan != "" {
+			c.Violate("a script with a failing inline expression failed to load", map[string]any{"readers": es, "error": fmt.Sprint(err), "panic": pan})
+			return
+		}
+		known := map[string]bool{}
+		for _, t := range lits {
+			known[t] = true
+		}
+		sawErr := false
+		var etrace []string
+		for k := 0; k < 10; k++ {
+			o := er.Next(0)
+			etrace = append(etrace, o.String())
+			if o.Kind == mon.KErr {
+				sawErr = true
+				continue
+			}
+			if o.Kind == mon.KPanic {
+				c.Violate("Next panicked after a line failed half-way through its text", map[string]any{"readers": es, "trace": etrace})
+				return
+			}
+			if o.Kind == mon.KEnd {
+				break
+			}
+			texts := []string{o.Text}
+			if o.Kind == mon.KOptions {
+				texts = nil
+				for _, x := range o.Opts {
+					texts = append(texts, x.Text)
+				}
+			}
+			for _, t := range texts {
+				if !known[t] && !(strings.HasPrefix(t, "fine ") && !sawErr) && t != "fine 42" {
+					c.Violate(fmt.Sprintf("after a line failed half-way through its text, a returned text is not one of the script's literal texts: %q", t), map[string]any{"readers": es, "trace": etrace})
+					return
+				}
+			}
+		}
+		if sawErr {
+			c.Feature("error-mid-line-then-literal-texts")
+		}
 	}
 
 	// ---- K1 sub-workload: a text that begins with an escaped bracket
